@@ -116,3 +116,57 @@ def nonterminating_split(txs):
                 return True
             # ratios like 3, 7, 0.3 -> 1/r non-terminating
     return False
+
+
+def run_ledger_cases(cases, oracle, *, record=False, fx=None, sample_fn=None, max_samples=2,
+                     nontrivial=None, case_extra=None):
+    """cases: list of (txs, feats). oracle(txs, obs, cnt, sets, feats) -> [violation dicts]."""
+    from collections import Counter
+    from ..probe import probe
+    from ..util import sha
+    cnt = Counter()
+    sets = {}
+    viols = []
+    hashes = set()
+    samples = []
+    reqs = []
+    for txs, _ in cases:
+        c = calc_case(txs, record=record, fx=fx)
+        if case_extra:
+            c.update(case_extra)
+        reqs.append(c)
+    obs = probe().run(reqs)
+    for (txs, feats), o in zip(cases, obs):
+        vs = oracle(txs, o, cnt, sets, feats)
+        for f in feats:
+            cnt["feat_" + f] += 1
+        nt = nontrivial(txs, o) if nontrivial else (
+            "ok" in o and any(y["disposals"] for y in o["ok"]["report"]["tax_years"]))
+        if nt:
+            hashes.add(sha(txs)[:16])
+        for x in vs:
+            x.setdefault("signature", x["clause"])
+            x["case"] = {"op": "calc", "txs": txs}
+            if fx is not None:
+                x["case"]["fx"] = fx
+            viols.append(x)
+        if sample_fn and len(samples) < max_samples and not vs and len(txs) <= 12:
+            s = sample_fn(txs, o)
+            if s:
+                samples.append(s)
+    return {"evaluations": len(cases), "nontrivial_hashes": hashes, "counters": cnt,
+            "violations": viols[:20], "samples": samples, "sets": {k: set(v) for k, v in sets.items()}}
+
+
+def split_factor(days, d_from, d_to):
+    """Multiplier taking a quantity in the units of date d_from to the units of date d_to (d_to >= d_from).
+    A split dated s applies after the trades of s: included iff d_from <= s < d_to."""
+    from ..util import ONE
+    f = ONE
+    for day in days:
+        if day.date >= d_to:
+            break
+        if day.date >= d_from:
+            for m in day.splits:
+                f *= m
+    return f
